@@ -131,7 +131,44 @@ struct Shared17 {
     first_ok_return: Option<u64>,
 }
 
+/// Every (seed type, value type) pairing of "has a destructor" x "has none": the cell's own Drop and its failure paths
+/// choose what to drop from these types, so the pairings are distinct code paths. Sequential; each history is
+/// never initialised / failed (Err, panic) / succeeded, then the cell is dropped and the ledger must be empty.
+fn type_pair_sweep(history: u8) {
+    fn run<T: Send + Sync + 'static>(history: u8, mk: impl Fn() -> T, label: &str) {
+        let live0 = ledger::live().len();
+        let cell: OnceInitCell<Droppy, T> = OnceInitCell::new(Droppy::make());
+        let seed_live = || ledger::live().iter().filter(|x| x.1 == "seed").count();
+        detsim::check(seed_live() == 1, "C17/seed-dropped-early", || format!("[{label}] a fresh cell does not own a live seed"));
+        match history {
+            0 => {}
+            1 => {
+                let r: Result<&T, u8> = cell.get_or_try_init(|_| Err(3));
+                detsim::check(r.is_err() && cell.get().is_none() && seed_live() == 1, "C17/seed-dropped-early", || format!("[{label}] after a failing initialiser: initialised={}, live seeds {}", cell.get().is_some(), seed_live()));
+            }
+            2 => {
+                let r = std::panic::catch_unwind(std::panic::AssertUnwindSafe(|| {
+                    cell.get_or_init(|_| std::panic::panic_any(detsim::InjectedPanic("initialiser".into())));
+                }));
+                detsim::check(r.is_err() && cell.get().is_none() && seed_live() == 1, "C17/seed-dropped-early", || format!("[{label}] after a panicking initialiser: initialised={}, live seeds {}", cell.get().is_some(), seed_live()));
+            }
+            _ => {
+                let _ = cell.get_or_init(|_| mk());
+                detsim::check(cell.get().is_some() && seed_live() == 0, "C17/seed-and-value-both-alive", || format!("[{label}] after a successful initialiser: initialised={}, live seeds {}", cell.get().is_some(), seed_live()));
+            }
+        }
+        drop(cell);
+        let left: Vec<_> = ledger::live().into_iter().skip(live0).collect();
+        detsim::check(left.is_empty(), "C17/leak", || format!("[{label}] history {history}: after dropping the cell these are still alive: {left:?}"));
+        detsim::count("reach.type_pair_sweep");
+    }
+    run::<u64>(history, || 5, "seed with destructor, value u64 (no destructor)");
+    run::<()>(history, || (), "seed with destructor, value ()");
+    run::<Tracked>(history, || Tracked::new("value"), "seed with destructor, value with destructor");
+}
+
 fn scenario<U: Seed>(w: Work, nt: Shared<bool>) {
+    type_pair_sweep((w.threads.len() + w.threads.iter().map(|t| t.len()).sum::<usize>()) as u8 % 4);
     ZST_LIVE.store(0, Ordering::SeqCst);
     ZST_DROPS.store(0, Ordering::SeqCst);
     let sh: Shared<Shared17> = shared(Shared17::default());
